@@ -582,6 +582,36 @@ def uncovered_mask(m, lv, bi, limit):
     return mask
 
 
+# field names that are unusual but valid (one per Header line): glob / regex metacharacters next to
+# the plain name they could be confused with, blanks, non-ASCII (UTF-8) text
+ODD_PLAIN = [("vel[0]", "vel0"), ("vel[1]", "vel1"), ("Y(OH*)", "Y(OH)"), ("a?b", "aXb"), ("x*", "xy"),
+             ("tracer[12]", "tracer1"), ("p.q", "pZq"), ("c+d", "ccd"), ("u|v", "u"), ("{k}", "k")]
+ODD_BLANK = ["x velocity", "heat release", "mass frac OH", "two  blanks"]
+ODD_UTF8 = ["\u03c1u", "Y(O\u2082)", "temp\u00e9rature", "\u03c9_z", "\u0394p"]
+
+
+def odd_names(rng, n, blanks=False, nonascii=False):
+    """n distinct unusual field names; metacharacter names come with their plain look-alike"""
+    pool = []
+    pairs = list(ODD_PLAIN); rng.shuffle(pairs)
+    for a, b in pairs:
+        pool += [a, b]
+    extra = (list(ODD_BLANK) if blanks else []) + (list(ODD_UTF8) if nonascii else [])
+    rng.shuffle(extra)
+    out = []
+    while len(out) < n:
+        src = extra if (extra and len(out) % 3 == 1) else pool
+        if not src:
+            src = pool or extra
+        if not src:
+            out.append(f"g{len(out)}"); continue
+        c = src.pop(0)
+        if c not in out:
+            out.append(c)
+    rng.shuffle(out)
+    return out
+
+
 def poison_covered(m, seed=0, frac=0.6):
     """Overwrite coarse cells lying under the next finer level with NaN / +inf / -inf (what a solver
     that does not average down may leave there). Cells no finer level covers are untouched and at
